@@ -31,6 +31,16 @@ REL = 1e-9
 _CONST = {}
 
 
+
+def _invalid_params(ctx, e):
+    """a parameter set the model itself rejects as invalid (InvalidModelException and subclasses) is outside every
+    property's quantifier: recorded in the malformed stream, never judged"""
+    from taurex.exceptions import InvalidModelException
+    if isinstance(e, InvalidModelException):
+        ctx.malformed_outcome('invalid-model-after-setters:' + type(e).__name__)
+        return True
+    return False
+
 def constants():
     if not _CONST:
         import taurex.constants as tc
@@ -597,6 +607,8 @@ def eval_reuse_model(ctx, c):
             m.initialize_profiles()
             fresh = build_model(c1)
     except Exception as e:
+        if _invalid_params(ctx, e):
+            return
         ctx.violation('stale-state:raises', 'changing parameters of a built model and re-initialising raised %r' % (e,),
                       small)
         return
